@@ -374,6 +374,43 @@ func refAcc(a *accEntry, raw []byte, def int64) (string, bool) {
 	return "", false
 }
 
+// dpnRefOptionValue reads the options field of a whole packet the RFC 2131 /
+// RFC 3396 way, independently of the library: pad octets skipped, End required,
+// code/length/value instances, the instances of one code concatenated.  raw is
+// nil when the code does not occur or all its instances are empty (no octets to
+// interpret); wellFormed is false when the packet is shorter than header and
+// cookie, the cookie is wrong, an instance runs past the end, or End is missing.
+func dpnRefOptionValue(q []byte, code uint8) (raw []byte, wellFormed bool) {
+	if len(q) < 240 || q[236] != 99 || q[237] != 130 || q[238] != 83 || q[239] != 99 {
+		return nil, false
+	}
+	i := 240
+	for i < len(q) {
+		c := q[i]
+		i++
+		switch c {
+		case 0:
+			continue
+		case 255:
+			return raw, true
+		}
+		if i >= len(q) {
+			return nil, false
+		}
+		n := int(q[i])
+		i++
+		if i+n > len(q) {
+			return nil, false
+		}
+		if c == code && n > 0 {
+			raw = append(raw, q[i:i+n]...)
+		}
+		i += n
+	}
+	// an empty options field is accepted by the library without End
+	return raw, len(q) == 240
+}
+
 // ---- set/get: expected read-back on the constructor's domain ----
 
 func ip4Of(s string) (string, bool) {
@@ -589,6 +626,37 @@ func checkLineC17(line string) (what, class string, judged bool) {
 		return "", "", true
 	case "v4hist":
 		return v4accCheckHist(line)
+	case "v4accdec":
+		if len(toks) != 4 {
+			return "", "", false
+		}
+		a := findAcc(toks[1])
+		if a == nil {
+			return "", "", false
+		}
+		raw, wellFormed := dpnRefOptionValue(unhx(toks[3]), a.code)
+		got := safeExec(streams["v4acc"], line)
+		if got == "panic" {
+			return "FromBytes or the accessor panicked: " + lastPanic, "accdec-" + a.name, true
+		}
+		if !wellFormed {
+			if got != "err" {
+				return fmt.Sprintf("a packet whose options field is malformed or lacks End decoded; %s() = %q", a.name, got), "accdec-" + a.name, true
+			}
+			return "", "", true
+		}
+		want, ok := refAcc(a, raw, atoi64(toks[2]))
+		if !ok {
+			return "", "", false
+		}
+		if got != "ok "+want {
+			class := "accdec-" + a.name
+			if a.kind == "relay" && got == "ok "+relayPadEndReading(raw) {
+				class = "acc-" + a.name + "-pad-end"
+			}
+			return fmt.Sprintf("%s() on the decoded packet = %q, reference interpretation of the option's octets (instances concatenated) = %q", a.name, strings.TrimPrefix(got, "ok "), want), class, true
+		}
+		return "", "", true
 	case "v4setget":
 		if len(toks) != 4 {
 			return "", "", false
@@ -690,6 +758,13 @@ func oracleC17(r *Rng, n int, thorough bool, seeds []string) *OracleResult {
 		if i%4 == 1 {
 			c := &ctorTable[(i/4)%len(ctorTable)]
 			l, tags := v4accGenHist(rr, c)
+			run(l, tags)
+			continue
+		}
+		if i%8 == 2 {
+			// the accessor on a packet that came out of FromBytes
+			a := &accTable[(i/8)%len(accTable)]
+			l, tags := dpnGenAccDecLine(rr, a, (i/(8*len(accTable)))%41)
 			run(l, tags)
 			continue
 		}
